@@ -162,6 +162,7 @@ func checkNewError(c *Ctx, p *Prog, rule, dir string) {
 
 func runC03(c *Ctx) {
 	p := c.RepoProg()
+	checkSymbolNamespace(c, p, "R03.9")
 	if !gmHealth(c, p, "R03.0") {
 		return
 	}
@@ -180,6 +181,7 @@ func runC03(c *Ctx) {
 
 func runC06(c *Ctx) {
 	p := c.RepoProg()
+	checkSymbolNamespace(c, p, "R06.3")
 	if !gmHealth(c, p, "R06.0") {
 		return
 	}
